@@ -10,7 +10,7 @@ if kid != '-':
     km = importlib.util.module_from_spec(spec); spec.loader.exec_module(km)
     if not os.path.isdir(km.WT):
         subprocess.check_call(['git', '-C', '/repo', 'worktree', 'add', '-q', '--detach', km.WT, 'HEAD'])
-    d = f'/verif/keeps/{kid}/keep.diff' if os.path.exists(f'/verif/keeps/{kid}/keep.diff') else f'/verif/seeded/{kid}/patch.diff'
+    d = f'/verif/seeded/{kid[2:]}/patch.diff' if kid.startswith('s:') else (f'/verif/keeps/{kid}/keep.diff' if os.path.exists(f'/verif/keeps/{kid}/keep.diff') else f'/verif/seeded/{kid}/patch.diff')
     ov = km.patched_files(d)
 from sa.index import RepoIndex
 ix = RepoIndex(overlay=ov)
